@@ -17,6 +17,18 @@ var fourMan = []string{
 	"KPkn", "KPkb", "Kkrr", "Kkbn", "Kknp", "Kkbp", "Kkrp", "Kkqp",
 }
 
+// lightFour are the 4-man classes cheap enough for the seed-rotated part of a quick run
+// (pawn classes: fewer placements and fewer moves than two-heavy-piece classes).
+var lightFour = []string{"KPkp", "KPPk", "KNPk", "KBPk", "Kkpp", "KPkn", "KPkb", "KNkp", "KBkp", "Kknp", "Kkbp", "KRkp", "KPkr", "KBkn", "KNNk", "KBNk"}
+
+// seedFour picks n 4-man classes: from the light list in the quick tier, from the full list in the thorough tier.
+func seedFour(r *ev.Run, offset int64, quick, thorough int) []string {
+	if r.Thorough() {
+		return seedPick(fourMan, r.Seed+offset, thorough)
+	}
+	return seedPick(lightFour, r.Seed+offset, quick)
+}
+
 func parseClasses(names []string) []universe.Class {
 	var out []universe.Class
 	for _, n := range names {
